@@ -1,8 +1,9 @@
 (** C54 property theorems (nothing else lives here; each is closed by [exact]).
 
     [toSegments wd path] = Some segs / None (InvalidPath); [okseg s]: the segment is non-empty, has
-    no '/', no NUL, and is neither "." nor "..".  [run access [] cs] is the protocol's working
-    directory after ANY history [cs] of CWD / CDUP / single-path commands / renames, for ANY
+    no '/', no NUL, and is neither "." nor "..".  [run access start cs] is the protocol's state (working
+    directory, pending RNFR name) after ANY history [cs] of CWD / CDUP / LIST / NLST / single-path commands /
+    RNFR / RNTO, for ANY
     behaviour [access] of the file system, and the segment lists handed to the shell on the way.
     [descendant cwd (mk cwd s) segs] is FTPShell(FilePath(s))._path(segs) (C26's model). *)
 From Coq Require Import List NArith Bool Arith.
@@ -24,9 +25,9 @@ Print Assumptions toSegments_depth_bounded.
 
 (** invariant over all command histories: the working directory and every segment list given to the
     shell consist of clean segments only *)
-Theorem session_working_directory_and_shell_arguments_clean : forall access cs wd,
-  forallb okseg wd = true ->
-  forallb okseg (fst (run access wd cs)) = true /\ Forall outs_ok (snd (run access wd cs)).
+Theorem session_working_directory_and_shell_arguments_clean : forall access cs st,
+  forallb okseg (fst st) = true ->
+  forallb okseg (fst (fst (run access st cs))) = true /\ Forall outs_ok (snd (run access st cs)).
 Proof. exact run_ok. Qed.
 Print Assumptions session_working_directory_and_shell_arguments_clean.
 
@@ -43,9 +44,20 @@ Print Assumptions shell_path_of_clean_segments_is_below_root.
     whose components are the root's followed by ordinary names *)
 Theorem every_fs_path_inside_root : forall access cs p segs cwd s,
   isabs cwd = true ->
-  toSegments (fst (run access [] cs)) p = Some segs ->
+  toSegments (fst (fst (run access start cs))) p = Some segs ->
   exists r, descendant cwd (mk cwd s) segs = Some r
             /\ segments r = segments (mk cwd s) ++ segs
             /\ forallb okc (segments r) = true /\ normpath r = r.
 Proof. exact session_paths_inside_root. Qed.
 Print Assumptions every_fs_path_inside_root.
+
+(** every segment list the server hands to the shell during any session (including the PARENT directory
+    NLST lists when its last segment is a glob expression) names a path below the root *)
+Theorem every_shell_call_inside_root : forall access cs o segs cwd s,
+  isabs cwd = true ->
+  In o (snd (run access start cs)) -> In (Some segs) o ->
+  exists r, descendant cwd (mk cwd s) segs = Some r
+            /\ segments r = segments (mk cwd s) ++ segs
+            /\ forallb okc (segments r) = true /\ normpath r = r.
+Proof. exact session_shell_calls_inside_root. Qed.
+Print Assumptions every_shell_call_inside_root.
